@@ -16,11 +16,15 @@ package shmipc
 
 import (
 	"fmt"
+	"go/ast"
+	"go/parser"
+	"go/token"
 	"net"
 	"os"
 	"runtime"
 	"sync"
 	"sync/atomic"
+	"syscall"
 	"testing"
 	"time"
 )
@@ -327,11 +331,53 @@ func v17NewListener(path string) (*Listener, error) {
 		return nil, err
 	}
 	l.SetUnlinkOnClose(false)
+	// count the raw accepts (a connection whose handshake fails never reaches the session table)
+	cnt := new(int64)
+	v17accepts.Store(l, cnt)
+	l.ln = &v17CountLn{Listener: l.ln, n: cnt}
 	go func() { _ = l.Run() }()
 	return l, nil
 }
 
+var v17accepts sync.Map // *Listener -> *int64
+
+type v17CountLn struct {
+	net.Listener
+	n *int64
+}
+
+func (c *v17CountLn) Accept() (net.Conn, error) {
+	conn, err := c.Listener.Accept()
+	if err == nil {
+		atomic.AddInt64(c.n, 1)
+	}
+	return conn, err
+}
+
+func v17RawAccepts(l *Listener) int64 {
+	if v, ok := v17accepts.Load(l); ok {
+		return atomic.LoadInt64(v.(*int64))
+	}
+	return -1
+}
+
+func v17LiveSessions(l *Listener) int {
+	l.sessions.sessionMu.Lock()
+	defer l.sessions.sessionMu.Unlock()
+	n := 0
+	for s := range l.sessions.data {
+		if !s.IsClosed() {
+			n++
+		}
+	}
+	return n
+}
+
 func v17NewScn(name string, n int, interval time.Duration) (*v17Scn, error) {
+	return v17NewScnMem(name, n, interval, MemMapTypeMemFd)
+}
+
+func v17NewScnMem(name string, n int, interval time.Duration, mem MemMapType) (*v17Scn, error) {
 	pid := os.Getpid()
 	sc := &v17Scn{name: name, n: n, t0: time.Now(), interval: interval,
 		path:   fmt.Sprintf("/tmp/v17_%d_%s.sock", pid, name),
@@ -346,7 +392,7 @@ func v17NewScn(name string, n int, interval time.Duration) (*v17Scn, error) {
 	}
 	conf := DefaultSessionManagerConfig()
 	conf.Address, conf.Network, conf.SessionNum = sc.path, "unix", n
-	conf.MemMapType = MemMapTypeMemFd
+	conf.MemMapType = mem
 	conf.ShareMemoryPathPrefix = sc.prefix
 	conf.QueuePath = sc.prefix + "_queue"
 	conf.ShareMemoryBufferCap = 4 << 20
@@ -1173,6 +1219,348 @@ func v17CloseRace(name string, n int, interval time.Duration, epoch uint64) v17C
 	return sc.result()
 }
 
+// ------------------------------------------------------------------------------------------ source shape
+// What the model assumes about the ORDER of statements in session_manager.go, read from the current
+// source (go/ast): in the watcher of background() the comparison `sm.pools[id] != pool` stands after the
+// receive from rebuildTimer.C, in the same statement list as the newClientSession call, between sm.Lock()
+// and the next sm.Unlock() of that list; pool.session.Store comes after that Unlock; in Close, wg.Wait()
+// precedes the first pool close() and the close() calls stand between sm.Lock() and sm.Unlock().
+type v17Shape struct {
+	Found               bool   `json:"found"`
+	CheckAfterTimer     bool   `json:"check_after_timer"`
+	CheckInLockWithDial bool   `json:"check_in_lock_with_dial"`
+	StoreAfterUnlock    bool   `json:"store_after_unlock"`
+	CloseWaitFirst      bool   `json:"close_wait_before_closing"`
+	CloseUnderLock      bool   `json:"close_under_lock"`
+	Err                 string `json:"err,omitempty"`
+}
+
+func v17Contains(n ast.Node, pred func(ast.Node) bool) bool {
+	found := false
+	ast.Inspect(n, func(x ast.Node) bool {
+		if x != nil && pred(x) {
+			found = true
+		}
+		return !found
+	})
+	return found
+}
+
+func v17IsCall(n ast.Node, recv, name string) bool {
+	c, ok := n.(*ast.CallExpr)
+	if !ok {
+		return false
+	}
+	switch f := c.Fun.(type) {
+	case *ast.Ident:
+		return recv == "" && f.Name == name
+	case *ast.SelectorExpr:
+		if f.Sel.Name != name {
+			return false
+		}
+		if recv == "*" {
+			return true
+		}
+		if id, ok := f.X.(*ast.Ident); ok {
+			return id.Name == recv
+		}
+		if sel, ok := f.X.(*ast.SelectorExpr); ok { // sm.wg.Wait, pool.session.Store
+			return sel.Sel.Name == recv
+		}
+	}
+	return false
+}
+
+func v17IsTopCall(st ast.Stmt, recv, name string) bool {
+	es, ok := st.(*ast.ExprStmt)
+	return ok && v17IsCall(es.X, recv, name)
+}
+
+func v17IsIdentityCheck(n ast.Node) bool {
+	b, ok := n.(*ast.BinaryExpr)
+	if !ok || b.Op != token.NEQ {
+		return false
+	}
+	ix, ok := b.X.(*ast.IndexExpr)
+	if !ok {
+		return false
+	}
+	sel, ok := ix.X.(*ast.SelectorExpr)
+	if !ok || sel.Sel.Name != "pools" {
+		return false
+	}
+	id, ok := b.Y.(*ast.Ident)
+	return ok && id.Name == "pool"
+}
+
+func v17IsTimerRecv(n ast.Node) bool {
+	u, ok := n.(*ast.UnaryExpr)
+	if !ok || u.Op != token.ARROW {
+		return false
+	}
+	sel, ok := u.X.(*ast.SelectorExpr)
+	if !ok || sel.Sel.Name != "C" {
+		return false
+	}
+	id, ok := sel.X.(*ast.Ident)
+	return ok && id.Name == "rebuildTimer"
+}
+
+func v17ReadShape() v17Shape {
+	var sh v17Shape
+	fset := token.NewFileSet()
+	f, err := parser.ParseFile(fset, "session_manager.go", nil, 0)
+	if err != nil {
+		sh.Err = err.Error()
+		return sh
+	}
+	var bg, cl *ast.FuncDecl
+	for _, d := range f.Decls {
+		if fd, ok := d.(*ast.FuncDecl); ok && fd.Recv != nil {
+			if fd.Name.Name == "background" {
+				bg = fd
+			}
+			if fd.Name.Name == "Close" && len(fd.Recv.List) == 1 {
+				if st, ok := fd.Recv.List[0].Type.(*ast.StarExpr); ok {
+					if id, ok := st.X.(*ast.Ident); ok && id.Name == "SessionManager" {
+						cl = fd
+					}
+				}
+			}
+		}
+	}
+	if bg == nil || cl == nil {
+		sh.Err = "background() or SessionManager.Close not found"
+		return sh
+	}
+	// the statement list that holds the dial
+	var list []ast.Stmt
+	ast.Inspect(bg, func(n ast.Node) bool {
+		if b, ok := n.(*ast.BlockStmt); ok {
+			for _, st := range b.List {
+				if as, ok := st.(*ast.AssignStmt); ok && len(as.Rhs) == 1 && v17IsCall(as.Rhs[0], "", "newClientSession") {
+					list = b.List
+				}
+			}
+		}
+		return true
+	})
+	if list == nil {
+		sh.Err = "the statement list with the newClientSession call was not found in background()"
+		return sh
+	}
+	sh.Found = true
+	iTimer, iCheck, iDial, iStore := -1, -1, -1, -1
+	for i, st := range list {
+		if iTimer < 0 && v17Contains(st, v17IsTimerRecv) {
+			iTimer = i
+		}
+		if iCheck < 0 && v17Contains(st, v17IsIdentityCheck) {
+			iCheck = i
+		}
+		if as, ok := st.(*ast.AssignStmt); ok && len(as.Rhs) == 1 && v17IsCall(as.Rhs[0], "", "newClientSession") {
+			iDial = i
+		}
+		if iStore < 0 && v17Contains(st, func(n ast.Node) bool { return v17IsCall(n, "session", "Store") }) {
+			iStore = i
+		}
+	}
+	sh.CheckAfterTimer = iTimer >= 0 && iCheck > iTimer
+	if iCheck >= 0 && iDial > iCheck {
+		lockBefore := false
+		for i := iCheck - 1; i >= 0; i-- {
+			if v17IsTopCall(list[i], "sm", "Unlock") || v17IsTopCall(list[i], "sm", "RUnlock") {
+				break
+			}
+			if v17IsTopCall(list[i], "sm", "Lock") {
+				lockBefore = true
+				break
+			}
+		}
+		unlockBetween := false
+		for i := iCheck; i < iDial; i++ {
+			if v17IsTopCall(list[i], "sm", "Unlock") {
+				unlockBetween = true
+			}
+		}
+		sh.CheckInLockWithDial = lockBefore && !unlockBetween
+	}
+	if iStore > iDial && iDial >= 0 {
+		for i := iDial + 1; i < iStore; i++ {
+			if v17IsTopCall(list[i], "sm", "Unlock") {
+				sh.StoreAfterUnlock = true
+			}
+		}
+	}
+	// Close
+	iWait, iLock, iUnlock, iFirstClose, iLastClose := -1, -1, -1, -1, -1
+	for i, st := range cl.Body.List {
+		if v17IsTopCall(st, "wg", "Wait") {
+			iWait = i
+		}
+		if v17IsTopCall(st, "sm", "Lock") && iLock < 0 {
+			iLock = i
+		}
+		if v17IsTopCall(st, "sm", "Unlock") {
+			iUnlock = i
+		}
+		if v17Contains(st, func(n ast.Node) bool { return v17IsCall(n, "*", "close") }) {
+			if iFirstClose < 0 {
+				iFirstClose = i
+			}
+			iLastClose = i
+		}
+	}
+	sh.CloseWaitFirst = iWait >= 0 && iFirstClose > iWait
+	sh.CloseUnderLock = iLock >= 0 && iFirstClose > iLock && iUnlock > iLastClose
+	return sh
+}
+
+// ------------------------------------------------------------------------------------------ swap during the rebuild wait
+// A session is lost in defaultState; while its watcher waits for the rebuild timer the hot-restart handler
+// for the same session id runs, swaps sm.pools[id] and parks the old pool.  When the timer fires the
+// watcher must see that its pool is not sm.pools[id] any more and must not dial.
+// inject = the event is handed to the manager exactly as the posted lambda of handleHotRestart does;
+// otherwise the old server sends the event and dies at once (event + EOF arrive together).
+func v17SwapDuringWait(name string, n int, interval time.Duration, epoch uint64, mem MemMapType, inject bool) v17Case {
+	sc, err := v17NewScnMem(name, n, interval, mem)
+	if err != nil {
+		return v17Case{ID: name, N: n, Oracle: []string{"C17:harness-setup | " + err.Error()}, SkipModel: true}
+	}
+	sc.feat["session-killed"], sc.feat["hot-restart"], sc.feat["swap-during-rebuild-wait"] = true, true, true
+	if mem == MemMapTypeMemFd {
+		sc.feat["memfd"] = true
+	} else {
+		sc.feat["devshm-file"] = true
+	}
+	sc.startSampler()
+	for k := 0; k < n; k++ {
+		sc.probe(k, true)
+	}
+	target := sc.lis // the server the hot-restart handler dials
+	var olds []*Session
+	sc.sm.RLock()
+	for _, p := range sc.sm.pools {
+		olds = append(olds, p.Session())
+	}
+	sc.sm.RUnlock()
+	expect := int64(0)
+	if inject {
+		sc.feat["event-injected-during-wait"] = true
+		base := v17RawAccepts(target)
+		if !sc.killServerSession(sc.lis, 0) {
+			sc.fail("C17:harness-setup", "client end did not notice the kill within 4 s")
+		}
+		time.Sleep(interval / 4)
+		sc.probeGap(0, 1)
+		sc.sm.handleEvent(typeHotRestart, &sessionManagerHotRestartParams{epoch: epoch, session: olds[0]})
+		expect = base + 1
+	} else {
+		sc.feat["old-server-sends-event-and-dies"] = true
+		oldL := sc.lis
+		var srvs []*Session
+		for i := 0; i < n; i++ {
+			srvs = append(srvs, sc.serverSessionOf(oldL, i))
+		}
+		nl, err := v17NewListener(sc.path)
+		if err != nil {
+			sc.fail("C17:harness-setup", err.Error())
+		}
+		sc.mu.Lock()
+		sc.oldLis, sc.lis = oldL, nl
+		sc.mu.Unlock()
+		target = nl
+		for i, s := range srvs {
+			if s != nil {
+				// the event is written, then the connection goes down almost at once (a server that dies
+				// right after announcing the restart).  Depending on how the two reach the client's event
+				// loop the event is dropped with the hang-up (plain rebuild), handled before the session is
+				// seen closed (watcher paused by hotRestartState), or — the interleaving of interest — the
+				// session is closed first and the posted handler swaps the pool during the rebuild wait.
+				_ = s.hotRestart(epoch, typeHotRestart)
+				time.Sleep(time.Duration(i*i*60) * time.Microsecond)
+				_ = syscall.Shutdown(s.connFd, syscall.SHUT_RDWR)
+				s.Close()
+			}
+		}
+		expect = int64(n)
+	}
+	swapped := sc.waitFor(3*time.Second, func(o *v17Obs) bool {
+		k := n
+		if inject {
+			k = 1
+		}
+		for i := 0; i < k; i++ {
+			if o.Pools[i] < n {
+				return false
+			}
+		}
+		return true
+	})
+	if !swapped && inject {
+		sc.setNote("setup", "the hot-restart handler did not swap the pool; nothing checked")
+	}
+	if !inject {
+		swapped = true // whatever mixture of swaps and plain rebuilds: one live session and one connection per pool
+	}
+	// several rebuild intervals, and the end of the hot restart on the client side
+	time.Sleep(3*interval + interval/2)
+	sc.waitFor(hotRestartCheckTimeout+time.Second, func(o *v17Obs) bool { return o.State != int64(hotRestartState) })
+	time.Sleep(interval + 100*time.Millisecond)
+	if !inject {
+		// pools whose event was dropped, or whose watcher was paused, are rebuilt by their watchers
+		sc.waitFor(2*interval+2*time.Second, func(o *v17Obs) bool {
+			for i := range o.Pools {
+				if o.Objs[o.Pools[i]][1] != 1 {
+					return false
+				}
+			}
+			return true
+		})
+		time.Sleep(2*interval + 100*time.Millisecond)
+	}
+	got := v17RawAccepts(target)
+	live := v17LiveSessions(target)
+	sc.setStat("accepts_expected", expect)
+	sc.setStat("accepts_seen", got)
+	sc.setStat("live_server_sessions", int64(live))
+	o := sc.peek()
+	wantLive := n
+	if swapped && got != expect {
+		sc.fail("C17:swapped-pool-rebuilt-a-second-time",
+			fmt.Sprintf("a pooled session was lost and, during the rebuild wait (%v), the hot-restart handler replaced its pool; afterwards the server accepted %d connection(s) where %d were expected: the watcher dialled although its pool is no longer sm.pools[id] (rebuilt sessions observed: %d, of which into a parked pool: %d)",
+				interval, got, expect, sc.stats["rebuilt"], sc.stats["rebuilt_into_unreferenced_pool"]))
+	}
+	if swapped && !inject && live != wantLive {
+		sc.fail("C17:swapped-pool-rebuilt-a-second-time", fmt.Sprintf("%d live sessions on the new server for %d pools", live, wantLive))
+	}
+	if swapped {
+		k := n
+		if inject {
+			k = 1
+		}
+		nswapped := 0
+		for i := 0; i < k; i++ {
+			if o.Pools[i] >= n { // pool object i was swapped out
+				nswapped++
+				if o.sess[i] != olds[i] {
+					sc.fail("C17:swapped-pool-rebuilt-a-second-time", fmt.Sprintf("the parked pool object of pool %d holds another session than the lost one", i))
+				}
+			}
+		}
+		sc.setStat("pools_swapped_by_handler", int64(nswapped))
+		for i := 0; i < n; i++ {
+			if !sc.probe(i, true) && (i == 0 || !inject) {
+				sc.fail("C17:getstream-fails-after-hot-restart", fmt.Sprintf("pool %d", i))
+			}
+		}
+	}
+	d := sc.closeManager()
+	sc.setStat("close_ms", int64(d/time.Millisecond))
+	sc.cleanup()
+	return sc.result()
+}
+
 // Close while a watcher waits for its rebuild timer
 func v17CloseDuringWait(name string, n int, interval time.Duration) v17Case {
 	sc, err := v17NewScn(name, n, interval)
@@ -1252,6 +1640,7 @@ func TestVerif_C17(t *testing.T) {
 	defer out.close()
 	seed := uint64(venvInt("VERIF_SEED", 1))
 	rounds := venvInt("VERIF_N", 1)
+	out.emit(map[string]interface{}{"id": "source-shape", "shape": v17ReadShape()})
 	for r := 0; r < rounds; r++ {
 		rng := newVrand(seed*1000 + uint64(r))
 		iv := func(lo, hi int) time.Duration { return time.Duration(lo+rng.intn(hi-lo+1)) * time.Millisecond }
@@ -1272,6 +1661,18 @@ func TestVerif_C17(t *testing.T) {
 			func() v17Case { return v17CloseDuringHotRestart(tag("closehr"), 2, i4, ep+11) },
 			func() v17Case { return v17CloseInFlight(tag("closeinflight"), i6, 500*time.Millisecond) },
 			func() v17Case { return v17CloseRace(tag("closerace"), 2, i3, ep+21) },
+			func() v17Case {
+				return v17SwapDuringWait(tag("swapwait_inject_memfd"), 1, 400*time.Millisecond, ep+31, MemMapTypeMemFd, true)
+			},
+			func() v17Case {
+				return v17SwapDuringWait(tag("swapwait_inject_file"), 1, 400*time.Millisecond, ep+32, MemMapTypeDevShmFile, true)
+			},
+			func() v17Case {
+				return v17SwapDuringWait(tag("swapwait_real_memfd"), 4, 350*time.Millisecond, ep+33, MemMapTypeMemFd, false)
+			},
+			func() v17Case {
+				return v17SwapDuringWait(tag("swapwait_real_file"), 3, 350*time.Millisecond, ep+34, MemMapTypeDevShmFile, false)
+			},
 		}
 		res := make([]v17Case, len(jobs))
 		var wg sync.WaitGroup
